@@ -16,6 +16,7 @@ import time
 
 HERE = os.path.dirname(os.path.dirname(os.path.abspath(__file__)))
 PY = "/venv/bin/python"
+BASE = os.environ.get("MUT_BASE", "/tmp/mut")
 
 
 def sh(cmd, cwd, timeout=900):
@@ -24,7 +25,7 @@ def sh(cmd, cwd, timeout=900):
 
 
 def confirm(prop, x):
-    wt = "/tmp/mut/%s" % prop
+    wt = "%s/%s" % (BASE, prop)
     out = {}
     rc, o = sh("git status --short -- jsonrpclib", wt)
     if o.strip():
@@ -54,8 +55,8 @@ def detect(prop, x, checks=None, src=None, in_repo=False):
     """Runs the checks against the change.  By default in the scratch worktree
     (VERIF_REPO/PYTHONPATH point the checks at it, /repo stays untouched);
     with in_repo=True the patch is applied to /repo and undone afterwards."""
-    patch = src or "/tmp/mut/%s/out/%s.diff" % (prop, x)
-    target = "/repo" if in_repo else "/tmp/mut/%s" % prop
+    patch = src or "%s/%s/out/%s.diff" % (BASE, prop, x)
+    target = "/repo" if in_repo else "%s/%s" % (BASE, prop)
     rc, o = sh("git status --short -- jsonrpclib", target)
     if o.strip():
         print(target, "is not clean:", o)
@@ -83,13 +84,14 @@ def detect(prop, x, checks=None, src=None, in_repo=False):
 
 
 def keep(prop, x, name, results):
-    wt = "/tmp/mut/%s/out" % prop
+    wt = "%s/%s/out" % (BASE, prop)
     dst = os.path.join(HERE, "seeded", name)
     os.makedirs(dst, exist_ok=True)
     shutil.copy(os.path.join(wt, "%s.diff" % x), os.path.join(dst, "patch.diff"))
     shutil.copy(os.path.join(wt, "demo_%s.py" % x), os.path.join(dst, "demo.py"))
     notes = open(os.path.join(wt, "%s.md" % x)).read() if os.path.exists(os.path.join(wt, "%s.md" % x)) else ""
-    meta = {"property": prop, "origin": "independent sub-agent given only the property text and a scratch worktree",
+    meta = {"property": prop, "round": 2 if "mut2" in BASE else 1,
+            "origin": "independent sub-agent given only the property text and a scratch worktree",
             "needs_to_manifest": notes, "confirmed": results.get("confirm"), "checks_run": results.get("detect")}
     with open(os.path.join(dst, "meta.json"), "w") as fp:
         json.dump(meta, fp, indent=1)
@@ -110,6 +112,10 @@ if __name__ == "__main__" and sys.argv[1] != "recheck":
             sys.exit(1)
         d = detect(prop, x, sys.argv[5:] or None)
         keep(prop, x, name, {"confirm": c, "detect": d})
+        mp = os.path.join(HERE, "seeded", name, "meta.json")
+        m = json.load(open(mp))
+        m["detected_by"] = sorted(c_ for c_, r in d.items() if r["exit"] == 1)
+        json.dump(m, open(mp, "w"), indent=1)
 
 
 def recheck(name, checks=None, tier="quick", keep_meta=True):
